@@ -90,7 +90,7 @@ func (sc *Scen) stepCrashFresh(k int) {
 
 func init() {
 	registerTail("C16", func(sc *Scen) { sc.settle(c16Rounds) })
-	registerStep("settle", func(sc *Scen) { sc.settle(c16Rounds) })
+	registerStepF4("settle", func(sc *Scen) { sc.settle(c16Rounds) })
 	registerFreshStep("crash_fresh@")
 	registerStepPrefix("crash_fresh@", func(sc *Scen, arg string) {
 		k := 1
